@@ -3,7 +3,7 @@ import ast
 
 from ..model import AnalysisError, dotted, unparse
 from ..structfmt import parse_format, local_defs, resolve_local, reaching_def
-from ..util import RAW, equiv_facts, POS, FACTS, FACTS_I, U, enum_paths, walk_no_nested, norm_fact
+from ..util import sym_resolve, sym_env, RAW, equiv_facts, POS, FACTS, FACTS_I, U, enum_paths, walk_no_nested, norm_fact
 from ..paths import call_attr, call_name
 from .. import wire
 
@@ -428,6 +428,47 @@ def r4(ctx):
   ctx.ob('C14.R4', f, 'result struct is read from the protocol', okread, 'a path classifies the result without reading it', why)
 
 
+def _is_strlist(e):
+  """Statically a list of text lines: traceback.format_* results, list displays of text, concatenations of those."""
+  if isinstance(e, ast.Call):
+    d = dotted(e.func) or ''
+    return d.split('.')[-1] in ('format_list', 'format_stack', 'format_exception_only', 'format_exception', 'format_tb', 'format_exc_lines') or \
+      (d.split('.')[-1] in ('list', 'sorted') and len(e.args) == 1 and _is_strlist(e.args[0])) or \
+      (d.split('.')[-1] == 'splitlines' )
+  if isinstance(e, ast.BinOp) and isinstance(e.op, ast.Add):
+    return _is_strlist(e.left) and _is_strlist(e.right)
+  if isinstance(e, (ast.List, ast.Tuple)):
+    return all((isinstance(x, ast.Constant) and isinstance(x.value, str)) or isinstance(x, ast.JoinedStr) or
+               (isinstance(x, ast.BinOp) and isinstance(x.op, ast.Mod) and isinstance(x.left, ast.Constant) and isinstance(x.left.value, str)) or
+               (isinstance(x, ast.Call) and (dotted(x.func) or '').split('.')[-1] in ('str', 'repr', 'format')) for x in e.elts)
+  return False
+
+
+def error_stack_kind(ctx, rule):
+  """The terminal sink joins msg.stack into the text of the library error before it completes the call: whatever MethodReturnMessage records
+  as the stack must be a sequence of text lines on every path (an entry of another type makes ''.join raise in the terminal sink, after the
+  timeout timer was cancelled: the call never completes)."""
+  prog = ctx.prog
+  w = prog.func('scales/dispatch.py', '_AsyncResponseSink._WrapException')
+  joins = [c for c in walk_no_nested(w.node) if isinstance(c, ast.Call) and call_attr(c) == 'join' and isinstance(c.func.value, ast.Constant)]
+  if not joins:
+    return      # the consumer no longer joins the entries: nothing to require of the producer
+  mr = prog.func('scales/message.py', 'MethodReturnMessage.__init__')
+  why = "the terminal sink builds the caller's exception with ''.join(msg.stack) before ar.set_exception; an entry that is not text raises there and the call never completes"
+  n = 0
+  for ev, ex in enum_paths(ctx, mr):
+    if ex[0] == 'raise':
+      continue
+    for i_, e in enumerate(ev):
+      if e.kind == 'stmt' and isinstance(e.node, ast.Assign) and any(U(t) == 'self.stack' for t in e.node.targets):
+        v = sym_resolve(e.node.value, sym_env(ev, i_))
+        if isinstance(v, ast.Constant) and v.value is None:
+          continue
+        n += 1
+        ctx.ob(rule, mr, 'the recorded stack is a list of text lines', _is_strlist(v), 'self.stack = %s' % U(v)[:200], why)
+  ctx.floor(rule, 'stack-recording paths of MethodReturnMessage.__init__', n, 1)
+
+
 def r5(ctx):
   prog = ctx.prog
   f = prog.func('scales/dispatch.py', '_AsyncResponseSink._WrapException')
@@ -475,6 +516,7 @@ def r5(ctx):
            'a path for error != None leaves self.stack = %s (no exception in flight: the reply decoder builds its error messages outside any handler)' % (U(got) if got is not None else 'unset'),
            why + ' -- with no stack the dispatcher hands the bare exception to the caller instead of the library error wrapping it')
   ctx.floor('C14.R5', 'error paths of MethodReturnMessage.__init__', n_err, 1)
+  error_stack_kind(ctx, 'C14.R5')
   oka = mr.params[1:3] == ['return_value', 'error']
   ctx.ob('C14.R5', mr, 'MethodReturnMessage(return_value, error) parameter order', oka, 'parameters are %s' % mr.params, why, nontrivial=False)
 
